@@ -49,15 +49,34 @@ def parse_parent(tok, ref):
     return seq_chunk_to_parent(ref, "chrom", cs, cs + len(ref)), cs
 
 
+PRIOR_USE = [None]      # lines marked ` @v`: (ptok, ref) of the line, see `parse_variants`
+PRIOR_MARK = " @v"
+_PERM = str.maketrans("ACGTacgt", "CGTAcgta")
+
+
 def parse_variants(tk, parent):
+    """`@v` twin (collections only): every VariantInterval object is first built on ANOTHER reference of the same shape
+    (letters permuted) and used on its own there (alternative sequence and alternative parent are computed), and only
+    then handed to the collection on the line's reference - the constructor re-parents its members in place."""
     kind = tk.next()
     n = 1 if kind == "1" else tk.int()
     vs = []
+    prior = PRIOR_USE[0] if kind != "1" else None
     for _ in range(n):
         s, e, alt = tk.int(), tk.int(), tk.next()
         alt = "" if alt == "." else alt
         vtype = "SNV" if len(alt) == e - s else ("insertion" if len(alt) > e - s else "deletion")
-        vs.append(VariantInterval(s, e, alt, vtype, parent_or_seq_chunk_parent=parent))
+        if prior is not None:
+            other, _ = parse_parent(prior[0], prior[1].translate(_PERM))
+            v = VariantInterval(s, e, alt, vtype, parent_or_seq_chunk_parent=other)
+            for q in ("alternative_genomic_sequence", "parent_with_alternative_sequence"):
+                try:
+                    getattr(v, q)
+                except Exception:  # noqa
+                    pass
+            vs.append(v)
+        else:
+            vs.append(VariantInterval(s, e, alt, vtype, parent_or_seq_chunk_parent=parent))
     if kind == "1":
         return vs[0]
     return VariantIntervalCollection(vs, parent_or_seq_chunk_parent=parent)
@@ -154,6 +173,13 @@ def hap_op(tk):
 
 
 def impl_var_op(line):
+    if line.endswith(PRIOR_MARK):
+        t = line.split()
+        PRIOR_USE[0] = (t[1], t[2])
+        try:
+            return impl_var_op(line[:-len(PRIOR_MARK)])
+        finally:
+            PRIOR_USE[0] = None
     tk = Toks(line.split())
     op = tk.next()
 
